@@ -93,6 +93,7 @@ func runOne(id string, seed int, onlyKey string, t0 time.Time) int {
 			c.Config = strings.Join(cfgNames, ",")
 			return c.finish(*flagVerifD, t0, seed, onlyKey)
 		}
+		theProg = p
 		c := newCheck(id, p, *flagTier)
 		if *flagTier == "thorough" {
 			c.depth = 12
